@@ -17,6 +17,7 @@ import (
 	"fmt"
 	"os"
 	"strings"
+	"syscall"
 	"time"
 
 	"rare/pkg/multiterm"
@@ -29,11 +30,29 @@ type Upd struct {
 }
 
 type Case struct {
-	Kind  string `json:"kind"` // seq | trimline
+	Kind  string `json:"kind"` // seq | trimline | gen
 	Width int    `json:"width"`
 	Trim  bool   `json:"trim"`
 	Seq   []Upd  `json:"seq,omitempty"`
 	Text  string `json:"text,omitempty"`
+	// Fam marks the cases of the size sweeps and history shapes ("size",
+	// "history"): their signatures end in /size-family, /history-family.
+	Fam string `json:"fam,omitempty"`
+	// kind gen: the update sequence is genSeq(Shape, N, K) (sweep.go)
+	Shape string `json:"shape,omitempty"`
+	N     int    `json:"n,omitempty"`
+	K     int    `json:"k,omitempty"`
+	// After: updates applied to the in-place writer after Close, followed by a
+	// second Close. The statement is silent about them: only "no panic" is judged.
+	After []Upd `json:"after,omitempty"`
+}
+
+// seqOf returns the update sequence of a seq or gen case.
+func seqOf(c Case) []Upd {
+	if c.Kind == "gen" {
+		return genSeq(c.Shape, c.N, c.K)
+	}
+	return c.Seq
 }
 
 // ---------------------------------------------------------------- capture
@@ -42,6 +61,7 @@ type capture struct {
 	pr, pw *os.File
 	saved  *os.File
 	buf    []byte
+	big    bool
 }
 
 func newCapture() *capture {
@@ -49,7 +69,15 @@ func newCapture() *capture {
 	if err != nil {
 		panic(err)
 	}
-	return &capture{pr: pr, pw: pw, buf: make([]byte, 0, 1<<16)}
+	c := &capture{pr: pr, pw: pw, buf: make([]byte, 0, 1<<16)}
+	// the writers are synchronous and nobody reads before mark(): make the pipe
+	// as large as an unprivileged process may (1 MiB); big reports whether that
+	// worked (otherwise the largest sweeps are left out and the run is capped)
+	const fSetPipeSz = 1031
+	if sz, _, errno := syscall.Syscall(syscall.SYS_FCNTL, pw.Fd(), fSetPipeSz, 1<<20); errno == 0 && sz >= 1<<20 {
+		c.big = true
+	}
+	return c
 }
 
 func (c *capture) begin() { c.saved = os.Stdout; os.Stdout = c.pw }
@@ -170,6 +198,7 @@ func checkScreen(res *result, who string, e *emu, m model, cut int, stage string
 }
 
 func runSeq(cap *capture, c Case) (res result) {
+	c.Seq = seqOf(c)
 	m := buildModel(c.Seq)
 	cut := 0
 	emuWidth := 0
@@ -191,12 +220,31 @@ func runSeq(cap *capture, c Case) (res result) {
 			}
 		}()
 		t := multiterm.New()
-		for _, u := range c.Seq {
+		for i, u := range c.Seq {
 			t.WriteForLine(u.Line, u.Text)
+			if i%32 == 31 { // keep the pipe from filling up on long sequences
+				pre = append(pre, cap.mark()...)
+			}
 		}
-		pre = cap.mark()
+		pre = append(pre, cap.mark()...)
 		t.Close()
 		post = cap.mark()
+		if len(c.After) > 0 {
+			// the statement says nothing about updates after Close: only
+			// completion without a panic is demanded, the bytes are discarded
+			func() {
+				defer func() {
+					if p := recover(); p != nil {
+						res.fail("C20/termwriter/panic-after-close", "panic in an update or a second Close after Close: %v", p)
+					}
+				}()
+				for _, u := range c.After {
+					t.WriteForLine(u.Line, u.Text)
+				}
+				t.Close()
+			}()
+			cap.mark()
+		}
 	}()
 	if len(res.findings) > 0 {
 		// drain whatever a panicking run left in the pipe
@@ -437,20 +485,31 @@ var trimWidths = []int{1, 2, 3, 4, 5, 80}
 func report(w *runner.W, c Case, res result) {
 	w.Eval(res.nontrivial)
 	for _, f := range res.findings {
-		w.Violation(f.sig, f.detail+"\ncase: "+describe(c), c)
+		w.Violation(famSig(c, f.sig), f.detail+"\ncase: "+describe(c), c)
 	}
-	if c.Kind == "seq" {
+	if c.Kind != "trimline" {
 		if len(res.findings) == 0 {
 			w.OutcomeHash(res.preHash)
 			w.OutcomeHash(res.postHash)
 		}
-		w.Add("transitions", int64(len(c.Seq)+1))
+		w.Add("transitions", int64(len(seqOf(c))+1+len(c.After)))
 	} else {
 		w.Add("linetrim_cases", 1)
+	}
+	if c.Fam != "" {
+		w.Add("cases_"+c.Fam+"_family", 1)
 	}
 	if res.nontrivial && w.WantSample() && (c.Kind == "trimline" || len(c.Seq) >= 3) {
 		w.Sample(c)
 	}
+}
+
+// famSig: the signatures of the sweep families carry the family.
+func famSig(c Case, sig string) string {
+	if c.Fam == "" {
+		return sig
+	}
+	return sig + "/" + c.Fam + "-family"
 }
 
 func describe(c Case) string {
@@ -548,6 +607,117 @@ func worker(w *runner.W) {
 	if w.Expired() {
 		return
 	}
+
+	// ---- SIZE sweeps and HISTORY shapes (sweep.go)
+	exec := func(c Case) bool {
+		caseNo++
+		if !w.Owns(caseNo) {
+			return true
+		}
+		if w.Expired() {
+			return false
+		}
+		w.SetCase(func() any { return c })
+		if c.Kind == "trimline" {
+			report(w, c, runTrimLine(c))
+		} else {
+			report(w, c, runSeq(cap, c))
+		}
+		return true
+	}
+	sp := sweepParams(w.Quick(), cap.big)
+	if !w.Quick() && !cap.big {
+		w.Cap("the capture pipe could not be enlarged to 1 MiB: line-count sweep limited to 1025 lines")
+	}
+	// number of lines
+	for _, n := range sizes(sp.maxLines) {
+		for _, shape := range lineShapes {
+			if shape == "zigzag" && n > 257 {
+				continue // quadratic output
+			}
+			for _, cf := range sp.lineCfgs {
+				if !exec(Case{Kind: "gen", Fam: "size", Shape: shape, N: n, Width: cf.width, Trim: cf.trim}) {
+					return
+				}
+			}
+		}
+	}
+	// number of updates, periodic shapes
+	for _, n := range sizes(sp.maxUpdates) {
+		for _, shape := range updShapes {
+			for _, k := range updLines {
+				for _, cf := range sp.updCfgs {
+					if !exec(Case{Kind: "gen", Fam: "size", Shape: shape, N: n, K: k, Width: cf.width, Trim: cf.trim}) {
+						return
+					}
+				}
+			}
+		}
+	}
+	// text length against the width, colour escapes around the cut
+	for wd := 1; wd <= sp.maxWidth; wd++ {
+		for n := 0; n <= sp.maxText; n++ {
+			half := widthText(n/2, "plain", "", 0)
+			for _, text := range widthTexts(wd, n) {
+				if !exec(Case{Kind: "trimline", Fam: "size", Width: wd, Trim: true, Text: text}) {
+					return
+				}
+				if !exec(Case{Kind: "seq", Fam: "size", Width: wd, Trim: true, Seq: widthSeq(text, half)}) {
+					return
+				}
+			}
+		}
+	}
+	// updates after Close (history): every sequence of 0..2 updates, Close,
+	// every sequence of 1..2 updates, Close
+	{
+		var alpha []Upd
+		for _, l := range []int{0, 2} {
+			for _, t := range []string{"", "ab", "\x1b[31mabcdefgh\x1b[0m"} {
+				alpha = append(alpha, Upd{l, t})
+			}
+		}
+		var seqs [][]Upd
+		seqs = append(seqs, nil)
+		for _, a := range alpha {
+			seqs = append(seqs, []Upd{a})
+		}
+		for _, a := range alpha {
+			for _, b := range alpha {
+				seqs = append(seqs, []Upd{a, b})
+			}
+		}
+		for _, cf := range []cfg{{5, true}, {80, false}} {
+			for _, before := range seqs {
+				for _, after := range seqs[1:] {
+					if !exec(Case{Kind: "seq", Fam: "history", Width: cf.width, Trim: cf.trim, Seq: before, After: after}) {
+						return
+					}
+				}
+			}
+		}
+	}
+}
+
+type sweepP struct {
+	maxLines, maxUpdates int
+	maxWidth, maxText    int
+	lineCfgs, updCfgs    []cfg
+}
+
+func sweepParams(quick, bigPipe bool) sweepP {
+	p := sweepP{
+		maxLines: 129, maxUpdates: 70, maxWidth: 40, maxText: 80,
+		lineCfgs: []cfg{{80, true}, {4, true}, {80, false}},
+		updCfgs:  []cfg{{3, true}, {6, true}, {80, true}, {80, false}},
+	}
+	if !quick {
+		p.maxLines, p.maxUpdates, p.maxWidth, p.maxText = 4097, 1025, 70, 140
+		if !bigPipe {
+			p.maxLines = 1025
+		}
+	}
+	return p
 }
 
 func replay(w *runner.W, raw json.RawMessage) {
@@ -564,7 +734,7 @@ func replay(w *runner.W, raw json.RawMessage) {
 		res = runSeq(cap, c)
 	}
 	for _, f := range res.findings {
-		w.Violation(f.sig, f.detail+"\ncase: "+describe(c), c)
+		w.Violation(famSig(c, f.sig), f.detail+"\ncase: "+describe(c), c)
 	}
 }
 
@@ -592,6 +762,16 @@ func rule(prop, tier string) string {
 		fmt.Fprintf(&sb, "pass linetrim-%s: multiterm.WriteLineNoWrap on ALL concatenations of 0..%d tokens of {%s} x widths %v with trimming on, and width 3 with trimming off; ", tp.name, tp.maxLen, q(tp.toks), trimWidths)
 	}
 	sb.WriteString("the wide alphabets hold single-column non-ASCII characters of 2, 3 and 4 UTF-8 bytes and of the categories Zs (U+00A0 NO-BREAK SPACE, U+2007 FIGURE SPACE, U+202F NARROW NO-BREAK SPACE: not unicode.IsPrint, yet one column each), Ll/Lu (U+00E9, U+1E9E) and So (U+1D11E), mixed with ASCII and colour escapes; double-width glyphs and control characters are not in any alphabet. ")
+	sp := sweepParams(quick, true)
+	var lc, uc []string
+	for _, c := range sp.lineCfgs {
+		lc = append(lc, fmt.Sprintf("width %d trim %v", c.width, c.trim))
+	}
+	for _, c := range sp.updCfgs {
+		uc = append(uc, fmt.Sprintf("width %d trim %v", c.width, c.trim))
+	}
+	fmt.Fprintf(&sb, "SIZE sweeps (signatures end in /size-family; sizes S(max) = 0..70 and 2^k-1, 2^k, 2^k+1 for k >= 7 up to max; element i carries i): (a) number of lines n in S(%d), shapes %v (asc-twice: lines 0..n-1 with distinct texts L<i>xxx, then all again with the same texts; gap-desc: line n-1 first, then 0, then n-2..1; rotate: lines 0..n-1, then line i gets the text of line i+1; uniform: the same text on every line, then another text on every second line bottom-up; zigzag: 0,n-1,1,n-2,... for n <= 257) x {%s}; (b) number of updates n in S(%d), update j to line j mod k (shapes *-bwd: (k-1)j mod k) for k in %v, text u<j> plus a pad of periodic length (shapes %v: growing 0..8, shrinking 8..0, triangle 0..6..0, constant), every fourth text bold, x {%s}; (c) text length n in 0..%d against width w in 1..%d with trimming on: n distinct single-column runes (ASCII then 2-byte letters) plain / a short escape in front of every rune / one escape of 5, 17 or 20 bytes (%s) starting after p visible runes for p in {0,w-2,w-1,w,w+1,n} with the reset at the end / ESC[38;5;196;1;4m after p runes with the reset one rune later; each text through WriteLineNoWrap and through the writers as the sequence (0,text),(1,x),(0,text),(1,text),(0,first n/2 runes). ", sp.maxLines, lineShapes, strings.Join(lc, "; "), sp.maxUpdates, updLines, updShapes, strings.Join(uc, "; "), sp.maxText, sp.maxWidth, q(sweepEscapes))
+	sb.WriteString("HISTORY (signatures end in /history-family): every sequence of 0..2 updates over lines {0,2} x texts {empty, ab, coloured 8 runes}, Close, every sequence of 1..2 updates, Close, x {width 5 trim on; width 80 trim off}: the in-place writer must not panic (the statement is silent about the screen after Close, nothing else is judged; the buffered and virtual writers refuse updates after Close by design and are not driven after Close). The same text written twice to a line with other lines written in between, and the same text moved to another line, are in the exhaustive passes and in the shapes asc-twice, rotate, uniform and (c). ")
 	sb.WriteString("states = distinct_outcomes = distinct emulator states (screen rows, cursor row/column, cursor visibility, width) reached before and after Close; transitions = updates + Close applied. non-trivial = (sequence) at least two updates of which one rewrites an already written line or moves to a lower line index; (linetrim) a text longer than the width that contains an escape sequence or a non-ASCII character")
 	return sb.String()
 }
@@ -610,6 +790,8 @@ func main() {
 				"with trimming off (--notrim or not a TTY) nothing is cut and the emulator has no right margin: the sentence about cutting is checked with trimming on only",
 				"texts contain only complete SGR escape sequences (ESC [ digits ; m); a colour left switched on by a cut before its reset sequence is not a violation of the statement",
 				"the width hook multiterm.VerifSetTermSize (build tag verif) replaces the width detected from a real TTY",
+				"one terminal, one TermWriter: two writer instances on the same terminal are out of scope; updates after Close are only required not to panic (TermWriter), VirtualTerm/BufferedTerm panic on them by design (\"virtualterm closed\")",
+				"the emulated screen has unbounded rows, so the line-count sweep (up to 129 lines quick, 4097 thorough) judges the cursor bookkeeping, not a terminal that scrolls",
 			}
 		},
 		Worker:         worker,
